@@ -1255,3 +1255,150 @@ func TestTTLCell(t *testing.T) {
 		}
 	}
 }
+
+// TestFoBurst: MANY keys in flight at once (free running, real scheduler): 1040 distinct keys are being built while a
+// background update of key ka and a synchronous build of key kb are in flight; the burst drains, the background update
+// finishes, then another Get of kb arrives while kb's builder is still running.  Recorded like TestFoFree (builder
+// entry / exit, call / ret, quiescence probe) for the FoMon monitors.
+func TestFoBurst(t *testing.T) {
+	outp := os.Getenv("VERIF_TRACE_OUT")
+	if outp == "" || os.Getenv("VERIF_FOBURST") == "" {
+		t.Skip("VERIF_FOBURST not set")
+	}
+
+	seed := envInt("VERIF_SEED", 1)
+	n := int(envInt("VERIF_N", 4))
+	res := Result{Extra: map[string]interface{}{}}
+
+	defer func() { mustNoErr(writeJSON(os.Getenv("VERIF_OUT"), res), "write result") }()
+
+	f, err := os.Create(outp)
+	mustNoErr(err, "trace out")
+
+	defer f.Close()
+
+	enc := json.NewEncoder(f)
+
+	for ri := 0; ri < n; ri++ {
+		const K = 1040 // more than 1024 keys locked at once
+
+		keys := []string{"ka", "kb"}
+		for i := 0; i < K; i++ {
+			keys = append(keys, fmt.Sprintf("m%04d", i))
+		}
+
+		cfg := FoCfg{Keys: keys, SyncUpdate: false, SyncRead: ri%2 == 1, FailTTL: []int{1, -1}[ri%2], UpdTTL: 1, BeTTL: 2,
+			Generic: ri%4 >= 2, Backend: "ShardedMap", StatOn: false, LogOn: false,
+			Skip: map[string]bool{}, HasCell: map[string]bool{}, Cell0: map[string]int{}}
+
+		km, err := NewKeyMap(seed+int64(ri), false, nil)
+		mustNoErr(err, "keymap")
+
+		for i, k := range keys {
+			real := []byte(fmt.Sprintf("burst-%05d-%04x", i, (seed*7919+int64(ri)*31)&0xffff))
+			km.ByModel[k] = real
+			km.ByReal[string(real)] = k
+		}
+
+		s := newSched(km, cfg.unit(), keys)
+		s.steer = false
+		stat := NewStatRec()
+		t0 := time.Now()
+		fo := newFo(cfg, s, stat, func() time.Time { return t0 })
+		r := &foRun{cfg: cfg, s: s, stat: stat, km: km, u: cfg.unit(), fo: fo, t0: t0}
+
+		r.prepare(foSnapJ{Be: []foEntJ{{K: "ka", V: "ka#0", E: 0}}})
+
+		var (
+			inside  int64
+			gateA   = make(chan struct{})
+			gateB   = make(chan struct{})
+			gateM   = make(chan struct{})
+			wg      sync.WaitGroup
+			callSeq int64
+		)
+
+		get := func(mk string) {
+			defer wg.Done()
+
+			p := fmt.Sprintf("%s.%d", mk, atomic.AddInt64(&callSeq, 1))
+			ctx := context.WithValue(context.WithValue(context.Background(), procKey{}, p), ctxProbe{}, p)
+
+			s.rec(Event{Ev: "call", P: p, K: mk})
+
+			v, err := fo.Get(ctx, append([]byte(nil), km.ByModel[mk]...), func(bctx context.Context) (string, error) {
+				nb := int(atomic.AddInt64(s.nb[mk], 1))
+				val := fmt.Sprintf("%s#%d", mk, nb)
+				s.rec(Event{Ev: "benter", P: p, K: mk, N: nb, V: val})
+				atomic.AddInt64(&inside, 1)
+
+				switch mk {
+				case "ka":
+					<-gateA
+				case "kb":
+					<-gateB
+				default:
+					<-gateM
+				}
+
+				atomic.AddInt64(&inside, -1)
+				s.rec(Event{Ev: "bexit", P: p, K: mk, N: nb, V: val, C: "ok"})
+
+				return val, nil
+			})
+
+			s.rec(Event{Ev: "ret", P: p, K: mk, V: v, Err: errTok(err)})
+		}
+
+		waitFor := func(cond func() bool) bool {
+			for i := 0; i < 60000; i++ { // up to a minute on an overloaded machine
+				if cond() {
+					return true
+				}
+
+				time.Sleep(time.Millisecond)
+			}
+
+			return false
+		}
+
+		wg.Add(2 + K)
+
+		go get("ka")
+		go get("kb")
+
+		for i := 0; i < K; i++ {
+			go get(keys[2+i])
+		}
+
+		ok := waitFor(func() bool { return atomic.LoadInt64(&inside) == K+2 && fo.KeyLocks() == K+2 })
+		res.Extra[fmt.Sprintf("burst_%d_all_inside", ri)] = ok
+
+		close(gateM) // the burst drains
+		ok = waitFor(func() bool { return fo.KeyLocks() == 2 })
+
+		close(gateA) // the background update finishes first
+		ok = ok && waitFor(func() bool { return fo.KeyLocks() == 1 })
+		res.Extra[fmt.Sprintf("burst_%d_drained", ri)] = ok
+
+		// another Get of kb while its builder is still running: it has to wait for that build
+		wg.Add(1)
+
+		go get("kb")
+
+		time.Sleep(30 * time.Millisecond)
+		close(gateB)
+		wg.Wait()
+
+		waitFor(func() bool { return fo.KeyLocks() == 0 })
+		s.rec(Event{Ev: "quiesce", N: fo.KeyLocks()})
+
+		s.mu.Lock()
+		evs := append([]Event(nil), s.events...)
+		s.mu.Unlock()
+
+		_ = enc.Encode(foOut{Cfg: cfg, B: ri, Events: evs})
+		res.Evaluations++
+		res.Steps += len(evs)
+	}
+}
